@@ -95,6 +95,15 @@ pub fn run(out: &mut Out, tier: &str, seed: u64) {
         for p in &cur { for a in &edges { let s = format!("{p}{a}"); one(out, &s); next.push(s); } }
         cur = next;
     }
+    // non-ASCII text: every byte of a name is judged as a byte — characters whose UTF-8 bytes read as Latin-1
+    // letters / digits (ê = C3 AA, µ = C2 B5, ² = C2 B2, ¼ = C2 BC …) beside ones that do not (é, α, 日)
+    let multi = ["a", "A", "_", "-", "\u{ea}", "\u{b5}", "\u{b2}", "\u{bc}", "\u{f5}", "\u{aa}", "\u{e9}", "\u{3b1}", "\u{65e5}", "\u{1F600}"];
+    let mut cur: Vec<String> = vec![String::new()];
+    for _ in 0..3 {
+        let mut next = Vec::new();
+        for p in &cur { for a in &multi { let s = format!("{p}{a}"); one(out, &s); next.push(s); } }
+        cur = next;
+    }
     // random long names over a wider alphabet (mostly valid + hostile)
     let mut rng = Rng::new(seed);
     let wide: Vec<char> = "abcxyzABCXYZ0189---___...".chars().collect();
